@@ -72,24 +72,24 @@ package reader
 //@   safety all
 
 //@ func NewReaderState
-//@   props C20 C11 C08
+//@   props C20 C11 C08 C12
 //@   ensures result != nil && fresh(result) && result.docEx != nil && fresh(result.docEx) && result.password == password
 //@   ensures "empty-document": result.docEx.Document.Mf.Lds1.Sod == nil && result.docEx.Document.Mf.CardSecurity == nil && result.docEx.Document.Mf.Lds1.Dg14 == nil && result.docEx.Document.Mf.CardAccess == nil
 //@   assigns nothing
 //@   safety all
 
 //@ func (reader *Reader) report
-//@   props C20 C11 C08
+//@   props C20 C11 C08 C12
 //@   requires reader != nil
 //@   assigns nothing
 //@   safety all
 //@ func (reader *Reader) reportPhase
-//@   props C20 C11 C08
+//@   props C20 C11 C08 C12
 //@   requires reader != nil
 //@   assigns nothing
 //@   safety all
 //@ func (reader *Reader) reportDataGroup
-//@   props C20 C11 C08
+//@   props C20 C11 C08 C12
 //@   requires reader != nil
 //@   assigns nothing
 //@   safety all
@@ -102,7 +102,7 @@ package reader
 //@   ensures "configuration-untouched": reader.skipPace == old(reader.skipPace) && reader.skipImages == old(reader.skipImages) && reader.aaChallenge == old(reader.aaChallenge)
 
 //@ func runSteps
-//@   props C20 C11 C08
+//@   props C20 C11 C08 C12
 //@   requires readerOK(reader) && stateOK(state) && reader.mu.held
 //@   ensures "lock-still-held": reader.mu.held
 //@   ensures "reader-and-state-still-usable": readerOK(reader) && stateOK(state)
@@ -110,52 +110,52 @@ package reader
 //@   safety bounds overflow      // a nil step would panic (contained by ReadDocument's recover); it is not a locking matter
 
 //@ func recordAtrAts(reader, state)
-//@   props C20 C11 C08
+//@   props C20 C11 C08 C12
 //@   implements ReaderStep
 //@   safety all
 
 //@ func selectMF(reader, state)
-//@   props C20 C11 C08
+//@   props C20 C11 C08 C12
 //@   implements ReaderStep
 //@   ensures "select-mf-errors-are-tolerated": err == nil
 //@   safety all
 
 //@ func selectMrtdApplication(reader, state)
-//@   props C20 C11 C08
+//@   props C20 C11 C08 C12
 //@   implements ReaderStep
 //@   ensures "application-selected-or-error": err == nil ==> reader.nfc.lastSW == 36864 || reader.nfc.lastSW == 27266
 //@   safety all
 
 //@ func readEfSod(reader, state)
-//@   props C20 C11 C08
+//@   props C20 C11 C08 C12
 //@   implements ReaderStep
 //@   ensures "security-object-held-or-the-chip-said-not-found": err == nil && state.docEx.Document.Mf.Lds1.Sod == nil ==> chipSaidNotFound(ref(reader.nfc), 285)
 //@   ensures "session-kept": reader.nfc.sm == old(reader.nfc.sm)
 //@   safety all
 
 //@ func readEfCom(reader, state)
-//@   props C20 C11 C08
+//@   props C20 C11 C08 C12
 //@   implements ReaderStep
 //@   ensures "held-or-the-chip-said-not-found": err == nil && state.docEx.Document.Mf.Lds1.Com == nil ==> chipSaidNotFound(ref(reader.nfc), 286)
 //@   ensures "session-kept": reader.nfc.sm == old(reader.nfc.sm)
 //@   safety all
 
 //@ func readEfDir(reader, state)
-//@   props C20 C11 C08
+//@   props C20 C11 C08 C12
 //@   implements ReaderStep
 //@   ensures "held-or-the-chip-said-not-found": err == nil && state.docEx.Document.Mf.Dir == nil ==> chipSaidNotFound(ref(reader.nfc), 12032)
 //@   ensures "session-kept": reader.nfc.sm == old(reader.nfc.sm)
 //@   safety all
 
 //@ func readEfCardAccess(reader, state)
-//@   props C20 C11 C08
+//@   props C20 C11 C08 C12
 //@   implements ReaderStep
 //@   ensures "held-or-the-chip-said-not-found": err == nil && state.docEx.Document.Mf.CardAccess == nil ==> chipSaidNotFound(ref(reader.nfc), 284)
 //@   ensures "session-kept": reader.nfc.sm == old(reader.nfc.sm)
 //@   safety all
 
 //@ func readLDS1dgs(reader, state)
-//@   props C20 C11 C08
+//@   props C20 C11 C08 C12
 //@   implements ReaderStep
 //@   ensures "needs-the-security-object": old(state.docEx.Document.Mf.Lds1.Sod) == nil ==> err != nil
 //@   ensures "session-kept": reader.nfc.sm == old(reader.nfc.sm)
@@ -182,7 +182,7 @@ package reader
 //@   safety all
 
 //@ func performPace(reader, state)
-//@   props C20 C11 C08
+//@   props C20 C11 C08 C12
 //@   implements ReaderStep
 //@   ensures "errors-are-recorded-not-returned": err == nil
 //@   ensures "skipped-on-request": old(reader.skipPace) ==> reader.nfc.sm == old(reader.nfc.sm) && state.docEx.Session.PaceResult == old(state.docEx.Session.PaceResult) && state.docEx.Session.PaceCamResult == old(state.docEx.Session.PaceCamResult)
@@ -193,7 +193,7 @@ package reader
 //@   safety all
 
 //@ func performBac(reader, state)
-//@   props C20 C11 C08
+//@   props C20 C11 C08 C12
 //@   implements ReaderStep
 //@   ensures "errors-are-recorded-not-returned": err == nil
 //@   ensures "only-without-a-session": old(reader.nfc.sm) != nil ==> reader.nfc.sm == old(reader.nfc.sm) && state.docEx.Session.BacResult == old(state.docEx.Session.BacResult)
@@ -203,28 +203,28 @@ package reader
 //@   safety all
 
 //@ func performChipAuthentication(reader, state)
-//@   props C20 C11 C08
+//@   props C20 C11 C08 C12
 //@   implements ReaderStep
 //@   ensures "active-authentication-verdict-is-the-protocols": err == nil && state.docEx.Session.ActiveAuthResult != nil ==> (state.docEx.Session.ActiveAuthResult.Success == (state.docEx.Session.ActiveAuthErr == nil))
 //@   ensures "chip-authentication-only-if-nothing-completed": err == nil && (aaOK(state.docEx.Session) || old(camOK(state.docEx.Session))) ==> state.docEx.Session.ChipAuthResult == old(state.docEx.Session.ChipAuthResult)
 //@   safety all
 
 //@ func performPassiveAuthentication(reader, state)
-//@   props C20 C11 C08
+//@   props C20 C11 C08 C12
 //@   implements ReaderStep
 //@   ensures "errors-are-recorded-not-returned": err == nil
 //@   ensures "verdict-is-the-checks": state.docEx.Session.PassiveAuthResult != nil && (state.docEx.Session.PassiveAuthResult.Success == (state.docEx.Session.PassiveAuthErr == nil))
 //@   safety all
 
 //@ func verifyDocument(reader, state)
-//@   props C20 C11 C08
+//@   props C20 C11 C08 C12
 //@   implements ReaderStep
 //@   ensures "errors-are-recorded-not-returned": err == nil
 //@   ensures "recorded-verdict-is-the-completeness-check": state.docEx.Session.DocumentVerifyErr == nil ==> state.docEx.Document.Mf.Lds1.Dg1 != nil && state.docEx.Document.Mf.Lds1.Sod != nil
 //@   safety all
 
 //@ func (reader *Reader) ReadDocument
-//@   props C20 C11 C08
+//@   props C20 C11 C08 C12
 //@   requires readerOK(reader) && !reader.mu.held && password != nil
 //@   ensures "lock-released": !reader.mu.held
 //@   safety all
